@@ -148,6 +148,13 @@ namespace tsshapes
             else if (op[0] == 'e') (void)out.erase(Int{std::stol(op.substr(1))});
             else if (op[0] == 'c') out.clear();
             else if (op[0] == 'B') { for (long k = 4; k <= 12; ++k) out.set(Int{k}, Int{k * 10}); }
+            else if (op[0] == 'x')
+            {
+                // a "sweep": the element handle is taken, the key is erased, and the element is written once more through the handle.
+                // The key stays removed (a late write to a removed element does not bring it back)
+                auto eq = op.find('='); const Int k{std::stol(op.substr(1, eq - 1))};
+                if (out.contains(k)) { auto element = out[k]; (void)out.erase(k); element.set(Int{std::stol(op.substr(eq + 1))}); }
+            }
         }
         static std::string items(KeyValueRange<ValueView, In<"", TS<Int>>> range, bool with_value)
         {
